@@ -23,6 +23,11 @@ type dcase struct {
 	via   string // kill exit (owner process terminates) | unreg (owner unregisters) | unregnode (Node.UnregisterName) | metastop metahandler (meta process terminates)
 	order string // CIXY CXIY CXYI XCY YCZ XYCI race   | for unrel: UXY XUY YUZ XYU race  (Z = the terminator goes on after the drain)
 	unrel bool   // the request is the REMOVAL of an established relation
+	// spell: how the requester writes the target: "" canonical, "atom" (gen.Atom through Link/Monitor(any)),
+	// "emptynode" (gen.ProcessID / gen.Event with Node == "")
+	spell string
+	// second: another subscriber holds a link on the target already (the request is not the first one)
+	second bool
 }
 
 var uniq atomic.Int64
@@ -46,7 +51,9 @@ func unregPoint(dc dcase, tgt any, owner gen.PID) (string, any) {
 			return "proc.unreg.event", tgt
 		}
 	case "unregnode":
-		return "node.unregname.deleted", owner
+		if dc.tk == "name" {
+			return "node.unregname.deleted", owner
+		}
 	}
 	return "", nil // no yield point there (explicit unregister by the owner, meta process)
 }
@@ -135,7 +142,15 @@ func runPair(id, scenario string, dc dcase) {
 		unreg = cmd{Op: "rmalias", Alias: rr.Alias}
 	case "event":
 		n := uname("c04d")
-		if rr, ok := do(T, cmd{Op: "regevent", Name: n}); !ok || rr.Err != nil {
+		name = n
+		if dc.via == "unregnode" {
+			// the node itself is the producer
+			if _, err := node.RegisterEvent(n, gen.EventOptions{}); err != nil {
+				fail(fmt.Sprint("setup node.RegisterEvent: ", err))
+				return
+			}
+			defer node.UnregisterEvent(n)
+		} else if rr, ok := do(T, cmd{Op: "regevent", Name: n}); !ok || rr.Err != nil {
 			fail(fmt.Sprint("setup regevent: ", rr.Err))
 			return
 		}
@@ -154,9 +169,24 @@ func runPair(id, scenario string, dc dcase) {
 	if dc.mon {
 		relOp, unrelOp = "monitor", "demonitor"
 	}
+	reqTgt := spelled(tgt, dc.spell)
 	if dc.unrel {
-		if rr, ok := do(R, cmd{Op: relOp, Tgt: tgt}); !ok || rr.Err != nil {
+		if rr, ok := do(R, cmd{Op: relOp, Tgt: reqTgt}); !ok || rr.Err != nil {
 			fail(fmt.Sprint("setup relation: ", rr.Err))
+			return
+		}
+	}
+	var S2 *obs
+	if dc.second {
+		var err error
+		if S2, err = spawnObserver(id + "/other-subscriber"); err != nil {
+			fail("spawn failed")
+			return
+		}
+		all = append(all, S2)
+		defer node.Kill(S2.pid)
+		if rr, ok := do(S2, cmd{Op: "link", Tgt: tgt}); !ok || rr.Err != nil {
+			fail(fmt.Sprint("setup other subscriber: ", rr.Err))
 			return
 		}
 	}
@@ -165,6 +195,9 @@ func runPair(id, scenario string, dc dcase) {
 		return
 	}
 	R.newNotes()
+	if S2 != nil {
+		S2.newNotes()
+	}
 	tm.Reset()
 
 	var wantReason error
@@ -180,6 +213,10 @@ func runPair(id, scenario string, dc dcase) {
 	st := &steps{}
 	cancelC := hk.Observe("link.checked", hk.Eq(tgt), func(string, any) { setOnce(&st.C) })
 	defer cancelC()
+	var tS atomic.Int64 // requester passed event.sub.added (relation inserted and re-checked, subscriber not yet counted)
+	cancelS := hk.Observe("event.sub.added", hk.Eq(tgt), func(string, any) { setOnce(&tS) })
+	defer cancelS()
+	var tTermDone, tRelS int64
 	if point != "" {
 		cancelX := hk.Observe(point, hk.Eq(subj), func(string, any) { setOnce(&st.X) })
 		defer cancelX()
@@ -191,7 +228,7 @@ func runPair(id, scenario string, dc dcase) {
 	}
 	startReq := func() chan res {
 		st.reqStart = hk.Tick()
-		return doAsync(R, cmd{Op: op, Tgt: tgt})
+		return doAsync(R, cmd{Op: op, Tgt: reqTgt})
 	}
 	var rres res
 	endReq := func(ch chan res) bool {
@@ -222,7 +259,12 @@ func runPair(id, scenario string, dc dcase) {
 		case "unregnode":
 			unregCh = make(chan res, 1)
 			go func() {
-				_, err := node.UnregisterName(name)
+				var err error
+				if dc.tk == "event" {
+					err = node.UnregisterEvent(name)
+				} else {
+					_, err = node.UnregisterName(name)
+				}
 				unregCh <- res{Err: err}
 			}()
 		case "metastop":
@@ -323,6 +365,37 @@ func runPair(id, scenario string, dc dcase) {
 		if okSeq {
 			need(termDone(), "watchdog: terminator did not finish")
 		}
+	case "CIsXYr":
+		// the subscriber is parked at event.sub.added: relation inserted and re-checked, request not yet returned,
+		// subscriber not yet counted; the event goes away completely; then the request returns
+		gS := hk.Park("event.sub.added", hk.Eq(tgt), false)
+		ch := startReq()
+		if need(gS.WaitArrived(5*time.Second), "gate: subscriber never reached event.sub.added") {
+			startTerm()
+			need(termDone(), "watchdog: terminator did not finish")
+			tTermDone = hk.Tick()
+		}
+		tRelS = hk.Tick()
+		gS.Release()
+		need(endReq(ch), "watchdog: request did not return")
+		need(!gS.TimedOut(), "gate: released by deadline")
+	case "CIsXrY":
+		// as above, but the terminator is held between delete and drain until the request has returned
+		gS := hk.Park("event.sub.added", hk.Eq(tgt), false)
+		gT = parkTerm()
+		ch := startReq()
+		if need(gS.WaitArrived(5*time.Second), "gate: subscriber never reached event.sub.added") {
+			startTerm()
+			need(termArrived(gT, "before"), "gate: terminator never reached the point between delete and drain")
+		}
+		tRelS = hk.Tick()
+		gS.Release()
+		need(endReq(ch), "watchdog: request did not return")
+		gT.Release()
+		if okSeq {
+			need(termDone(), "watchdog: terminator did not finish")
+		}
+		need(!gS.TimedOut(), "gate: released by deadline")
 	case "YCZ", "YUZ":
 		// the terminator is parked right after the drain returned, before it sends anything and goes on
 		gT = tm.Park("drain.after", tgt)
@@ -346,7 +419,7 @@ func runPair(id, scenario string, dc dcase) {
 		probs := map[string]float64{
 			"link.checked": 0.7, "proc.unreg.deleted": 0.5,
 			"proc.run.wake": 0.1, "proc.run.enter": 0.2, "proc.run.term.err": 0.3, "proc.kill.term": 0.3, "proc.kill.zombie": 0.2,
-			"meta.term": 0.5, "meta.start.term": 0.5, "meta.enter": 0.2,
+			"meta.term": 0.5, "meta.start.term": 0.5, "meta.enter": 0.2, "event.sub.added": 0.6,
 		}
 		if point != "" {
 			probs[point] = 0.7
@@ -387,11 +460,11 @@ func runPair(id, scenario string, dc dcase) {
 	}
 	// ticks of insert (or removal) and drain from the tap
 	if dc.unrel {
-		if t := tm.first(func(e tapEv) bool { return (e.Op == "rmlink" || e.Op == "rmmon") && e.C == R.pid && e.T == tgt }); t > 0 {
+		if t := tm.first(func(e tapEv) bool { return (e.Op == "rmlink" || e.Op == "rmmon") && e.C == R.pid && canon(e.T) == tgt }); t > 0 {
 			st.I.Store(t)
 		}
 	} else if t := tm.first(func(e tapEv) bool {
-		return (e.Op == "addlink" || e.Op == "addmon") && e.C == R.pid && e.T == tgt && e.Err == nil
+		return (e.Op == "addlink" || e.Op == "addmon") && e.C == R.pid && canon(e.T) == tgt && e.Err == nil
 	}); t > 0 {
 		st.I.Store(t)
 	}
@@ -407,7 +480,12 @@ func runPair(id, scenario string, dc dcase) {
 	intended := false
 	switch dc.order {
 	case "CIXY":
-		intended = I > 0 && Y > 0 && I < firstXY
+		// the request was over (relation inserted, or refused) before the target began to go away
+		intended = Y > 0 && st.reqEnd < firstXY && (I > 0 || rres.Err != nil)
+	case "CIsXYr":
+		intended = I > 0 && tS.Load() > I && tTermDone > tS.Load() && tRelS > tTermDone
+	case "CIsXrY":
+		intended = I > 0 && tS.Load() > I && X > tS.Load() && st.reqEnd < Y
 	case "CXIY":
 		intended = C > 0 && X > C && I > X && Y > I
 	case "CXYI":
@@ -442,7 +520,7 @@ func runPair(id, scenario string, dc dcase) {
 	} else if rres.Err == nil {
 		expected = []note{{dc.mon, tgt, wantReason}}
 	}
-	ctx := fmt.Sprintf("%s on %s, target went away by %s, steps measured %q (I = tap %s), request returned %v", op, dc.tk, dc.via, measured, map[bool]string{false: "insert", true: "removal"}[dc.unrel], rres.Err)
+	ctx := fmt.Sprintf("%s on %s written as %#v, target went away by %s, order %s, steps measured %q (I = tap %s), request returned %v", op, dc.tk, reqTgt, dc.via, dc.order, measured, map[bool]string{false: "insert", true: "removal"}[dc.unrel], rres.Err)
 	matchNotes(r, "requester", expected, observed, ctx, func(n note) string {
 		if !dc.unrel && I > 0 && Y > 0 && I > Y {
 			// the relation was inserted after the drain had already run
@@ -450,15 +528,27 @@ func runPair(id, scenario string, dc dcase) {
 		}
 		return defaultMissSig(n)
 	})
-	key := fmt.Sprintf("%s/%s/%s/%s/%s", scenario, dc.tk, op, dc.via, dc.order)
+	if S2 != nil {
+		// the other subscriber was there all the time: exactly one exit signal
+		o2, _, _ := S2.newNotes()
+		matchNotes(r, "other subscriber", []note{{false, tgt, wantReason}}, o2, ctx, defaultMissSig)
+	}
+	tkl := dc.tk
+	if dc.spell != "" {
+		tkl += "@" + dc.spell
+	}
+	if dc.second {
+		tkl += "+second"
+	}
+	key := fmt.Sprintf("%s/%s/%s/%s/%s", scenario, tkl, op, dc.via, dc.order)
 	if dc.order == "race" {
-		key = fmt.Sprintf("%s/%s/%s/%s/%s/result-nil=%v", scenario, dc.tk, op, dc.via, measured, rres.Err == nil)
+		key = fmt.Sprintf("%s/%s/%s/%s/%s/result-nil=%v", scenario, tkl, op, dc.via, measured, rres.Err == nil)
 	}
 	stat("pair_request_nil", b2i(rres.Err == nil))
 	stat("pair_request_error", b2i(rres.Err != nil))
 	detail := map[string]any{
-		"target": fmt.Sprint(tgt), "request": op, "via": dc.via, "order": dc.order, "measured": measured,
-		"result": fmt.Sprint(rres.Err), "notifications": fmt.Sprint(observed), "ticks": map[string]int64{"C": C, "I": I, "X": X, "Y": Y, "req_start": st.reqStart, "req_end": st.reqEnd},
+		"target": fmt.Sprint(tgt), "written_as": fmt.Sprintf("%#v", reqTgt), "request": op, "via": dc.via, "order": dc.order, "measured": measured,
+		"result": fmt.Sprint(rres.Err), "notifications": fmt.Sprint(observed), "ticks": map[string]int64{"C": C, "I": I, "S": tS.Load(), "X": X, "Y": Y, "req_start": st.reqStart, "req_end": st.reqEnd},
 	}
 	if len(r.viols) > 0 {
 		detail["tap"] = tapStrings(tm.Log())
@@ -825,6 +915,8 @@ func viasOf(tk string) []string {
 		return []string{"kill", "exit", "unreg", "unregnode"}
 	case "metaalias":
 		return []string{"kill", "exit", "metastop", "metahandler"}
+	case "event":
+		return []string{"kill", "exit", "unreg", "unregnode"}
 	}
 	return []string{"kill", "exit", "unreg"}
 }
@@ -842,6 +934,41 @@ func runDirectedAll() {
 				}
 				for _, o := range uorders {
 					runPair(fmt.Sprintf("D/%s/un%s/%s/%s", tk, relname(mon), via, o), "directed-removal", dcase{tk: tk, mon: mon, via: via, order: o, unrel: true})
+				}
+			}
+		}
+	}
+	// spellings of the target: every request that returns nil must be notified, however the target was written
+	for _, sp := range []struct{ tk, spell string }{{"name", "atom"}, {"name", "emptynode"}, {"event", "emptynode"}} {
+		for _, mon := range []bool{false, true} {
+			for _, via := range viasOf(sp.tk) {
+				orders := []string{"CIXY", "CXIY", "CXYI", "XCY", "YCZ", "XYCI"}
+				uorders := []string{"UXY", "XUY", "XYU"}
+				if sp.tk == "name" && sp.spell == "emptynode" {
+					// not a local spelling for the router: the request is expected to fail; nothing to gate
+					orders, uorders = []string{"CIXY", "XYCI"}, nil
+				}
+				for _, o := range orders {
+					runPair(fmt.Sprintf("D/%s@%s/%s/%s/%s", sp.tk, sp.spell, relname(mon), via, o), "directed-spelling", dcase{tk: sp.tk, mon: mon, via: via, order: o, spell: sp.spell})
+				}
+				for _, o := range uorders {
+					runPair(fmt.Sprintf("D/%s@%s/un%s/%s/%s", sp.tk, sp.spell, relname(mon), via, o), "directed-spelling", dcase{tk: sp.tk, mon: mon, via: via, order: o, spell: sp.spell, unrel: true})
+				}
+			}
+		}
+	}
+	// event subscription: the subscriber parked after insert + re-check (event.sub.added), before it is counted
+	for _, mon := range []bool{false, true} {
+		for _, via := range viasOf("event") {
+			for _, second := range []bool{false, true} {
+				for _, sp := range []string{"", "emptynode"} {
+					for _, o := range []string{"CIsXYr", "CIsXrY"} {
+						id := fmt.Sprintf("D/event-sub/%s/%s/%s/%s", relname(mon), via, map[bool]string{false: "first", true: "second"}[second], o)
+						if sp != "" {
+							id += "@" + sp
+						}
+						runPair(id, "directed-event-sub", dcase{tk: "event", mon: mon, via: via, order: o, second: second, spell: sp})
+					}
 				}
 			}
 		}
@@ -879,6 +1006,22 @@ func runRacesAll() {
 				for k := 0; k < n/2; k++ {
 					runPair(fmt.Sprintf("R/%s/un%s/%s/%d", tk, relname(mon), via, k), "race-removal", dcase{tk: tk, mon: mon, via: via, order: "race", unrel: true})
 				}
+			}
+		}
+	}
+	for _, sp := range []struct{ tk, spell string }{{"name", "atom"}, {"name", "emptynode"}, {"event", "emptynode"}} {
+		for _, mon := range []bool{false, true} {
+			for _, via := range viasOf(sp.tk) {
+				for k := 0; k < n/4; k++ {
+					runPair(fmt.Sprintf("R/%s@%s/%s/%s/%d", sp.tk, sp.spell, relname(mon), via, k), "race", dcase{tk: sp.tk, mon: mon, via: via, order: "race", spell: sp.spell})
+				}
+			}
+		}
+	}
+	for _, mon := range []bool{false, true} {
+		for _, via := range viasOf("event") {
+			for k := 0; k < n/2; k++ {
+				runPair(fmt.Sprintf("R/event-sub/%s/%s/second/%d", relname(mon), via, k), "race", dcase{tk: "event", mon: mon, via: via, order: "race", second: true})
 			}
 		}
 	}
@@ -940,6 +1083,7 @@ func runFan(id, scenario string) {
 	type reqst struct {
 		o       *obs
 		tgt     any
+		wr      any // the target as the requester writes it
 		mon     bool
 		pre     bool // relation established before the race; the raced request is its removal
 		ch      chan res
@@ -955,7 +1099,12 @@ func runFan(id, scenario string) {
 			return
 		}
 		all = append(all, o)
-		reqs = append(reqs, &reqst{o: o, tgt: targets[rng.Intn(len(targets))], mon: rng.Intn(2) == 0, pre: rng.Intn(4) == 0})
+		q := &reqst{o: o, tgt: targets[rng.Intn(len(targets))], mon: rng.Intn(2) == 0, pre: rng.Intn(4) == 0}
+		q.wr = q.tgt
+		if !q.pre {
+			q.wr = spelled(q.tgt, []string{"", "", "atom", "emptynode"}[rng.Intn(4)])
+		}
+		reqs = append(reqs, q)
 	}
 	for _, q := range reqs {
 		if q.pre {
@@ -979,7 +1128,7 @@ func runFan(id, scenario string) {
 		wantReason = errCustom
 	}
 	hk.Stress(id, map[string]float64{
-		"link.checked": 0.6, "proc.unreg.deleted": 0.6, "proc.unreg.name": 0.6, "proc.unreg.alias": 0.6, "proc.unreg.event": 0.6,
+		"link.checked": 0.6, "event.sub.added": 0.5, "proc.unreg.deleted": 0.6, "proc.unreg.name": 0.6, "proc.unreg.alias": 0.6, "proc.unreg.event": 0.6,
 		"proc.run.wake": 0.1, "proc.run.enter": 0.2, "proc.run.term.err": 0.3, "proc.kill.term": 0.3, "meta.term": 0.5, "meta.enter": 0.2, "meta.wake": 0.2,
 	}, time.Duration(20+rng.Intn(200))*time.Microsecond)
 	termAt := rng.Intn(nreq + 1)
@@ -999,7 +1148,7 @@ func runFan(id, scenario string) {
 			op = []string{"unlink", "demonitor"}[b2i(q.mon)]
 		}
 		q.started = hk.Tick()
-		q.ch = doAsync(q.o, cmd{Op: op, Tgt: q.tgt})
+		q.ch = doAsync(q.o, cmd{Op: op, Tgt: q.wr})
 		spinWait(time.Duration(rng.Intn(30)) * time.Microsecond)
 	}
 	if termAt == nreq {
@@ -1038,7 +1187,7 @@ func runFan(id, scenario string) {
 		}
 		tY := tm.first(func(e tapEv) bool { return e.Op == "drain" && e.T == q.tgt })
 		tI := tm.first(func(e tapEv) bool {
-			return (e.Op == "addlink" || e.Op == "addmon") && e.C == q.o.pid && e.T == q.tgt && e.Err == nil
+			return (e.Op == "addlink" || e.Op == "addmon") && e.C == q.o.pid && canon(e.T) == q.tgt && e.Err == nil
 		})
 		if q.started < tY && q.ended > tY {
 			overlapped++
@@ -1046,7 +1195,7 @@ func runFan(id, scenario string) {
 		if q.res.Err == nil {
 			nilres++
 		}
-		ctx := fmt.Sprintf("requester %d: %s (pre-established=%v) on %s %v returned %v; owner terminated by %s; insert@%d drain@%d", i, relname(q.mon), q.pre, tkind(q.tgt), q.tgt, q.res.Err, via, tI, tY)
+		ctx := fmt.Sprintf("requester %d: %s (pre-established=%v) on %s %#v returned %v; owner terminated by %s; insert@%d drain@%d", i, relname(q.mon), q.pre, tkind(q.tgt), q.wr, q.res.Err, via, tI, tY)
 		matchNotes(r, fmt.Sprintf("requester %d", i), expected, observed, ctx, func(n note) string {
 			if !q.pre && tI > tY && tY > 0 {
 				return "link-after-drain-lost/" + tkind(q.tgt)
